@@ -96,3 +96,9 @@ Proof. repeat split; reflexivity. Qed.
 From SymfcG Require Import ShapesCoset ShapesSumRule ShapesSpg ShapesReps ShapesAuxEig SkelSpg SkelEig SkelMat ShapesGeom ShapesAuxCut SkelCut.
 Theorem c04_recorded_sources4_in_force : ShapesCoset_as_recorded = true /\ ShapesSumRule_as_recorded = true /\ ShapesSpg_as_recorded = true /\ ShapesReps_as_recorded = true /\ ShapesAuxEig_as_recorded = true /\ SkelSpg_as_recorded = true /\ SkelEig_as_recorded = true /\ SkelMat_as_recorded = true /\ ShapesGeom_as_recorded = true /\ ShapesAuxCut_as_recorded = true /\ SkelCut_as_recorded = true.
 Proof. repeat split; reflexivity. Qed.
+
+(** The Symfc facade (the entry point through which every returned force constant and basis set of this property is obtained) is the
+    recorded source: whole-function and skeleton match, regenerated on every run. *)
+From SymfcG Require Import ShapesApi SkelApi.
+Theorem c04_facade_in_force : ShapesApi_as_recorded = true /\ SkelApi_as_recorded = true.
+Proof. repeat split; reflexivity. Qed.
